@@ -115,8 +115,11 @@ func init() {
 		hostilePatterns := []string{"^[^\n]*$", "^key\nvalue$", "a\nb", "\t", "^[^\t]+$", "\r\n", "^\"q\"$", "'", "^a\\.b$", "\\d+%", "^%s$", "^[äöü]+$", "日本", "^\\s*$", "^a\n\tb$", "a`b", "^`+$", "`\r`",
 			// an ESCAPED backslash followed by something that would be an escape had the backslash been alone (\u0041, \x41,
 			// \d, \n), and the hexadecimal escapes RE2 does have
-			"^\\\\u0041$", "\\\\x41", "^\\\\d+$", "^\\\\n$", "^\\\\t$", "\\\\\\\\", "^\\x41$", "^\\x{41}$", "^\\x{1F600}$"}
-		hostileDocs := []string{"\\u0041", "A", "\\x{0041}", "\\x41", "\\d", "\\ddd", "\\n", "\\t", "\\\\", "\\", "7", "😀", "", "a", "ab", "a\nb", "a\n\tb", "col1\tcol2", "key\nvalue", "key\n\tvalue", "\r\n", "\"q\"", "it's", "a.b", "axb", "12%", "%s", "äö", "日本語", " \t ", "x\ty\nz", "a`b", "``", "`\r`", "a\r\nb"}
+			"^\\\\u0041$", "\\\\x41", "^\\\\d+$", "^\\\\n$", "^\\\\t$", "\\\\\\\\", "^\\x41$", "^\\x{41}$", "^\\x{1F600}$",
+			// patterns that LOOK as if they constrained nothing (or everything): `.` does not match a line feed, `$` matches only
+			// at the end of the text, `^$` admits only the empty string
+			"^.*$", ".*", "^.*", ".*$", ".+", "^.+$", "^.?$", "(?s)^.*$", "^(.*)$", "^[\\s\\S]*$", ".", "^", "$", "^$", "()", ".{0,}", "^.{0,}$", "^.{1,}$", "^(?:.*)$", "^.*?$"}
+		hostileDocs := []string{"\\u0041", "A", "\\x{0041}", "\\x41", "\\d", "\\ddd", "\\n", "\\t", "\\\\", "\\", "7", "😀", "", "a", "ab", "a\nb", "a\n\tb", "col1\tcol2", "key\nvalue", "key\n\tvalue", "\r\n", "\"q\"", "it's", "a.b", "axb", "12%", "%s", "äö", "日本語", " \t ", "x\ty\nz", "a`b", "``", "`\r`", "a\r\nb", "\n", "x\n", "\nx", "two\nlines"}
 		var fidelity []*core.PCase
 		for _, pat := range hostilePatterns {
 			for _, pos := range []Position{PosRequired, PosOptional, PosDef} {
